@@ -360,6 +360,27 @@ class Gen:
         r = self.r
         stmts = [("def", "acc0", ("list", []))]
         k = r.random()
+        if k < 0.06:
+            # a loop walks whatever its expression evaluates to - also when the expression calls a function the program
+            # defined under the name of a built-in, or names a variable called like one
+            a, b = r.randint(0, 5), r.randint(0, 5)
+            which = r.randrange(3)
+            if which == 0:
+                stmts.append(("deffn", "range", [("p", None, False), ("q", I(1), False)], ("list", [V("q"), V("p"), ("bin", "+", V("p"), V("q"))])))
+                it = CALL("range", I(a), I(b)) if r.random() < 0.6 else CALL("range", I(a))
+            elif which == 1:
+                stmts.append(("deffn", "keys_of", [("m", None, False)], ("list", [I(b), I(a)])))
+                stmts.append(("deffn", "interval", [("p", None, False), ("q", None, False)], ("list", [V("q"), V("p")])))
+                it = CALL("interval", I(a), I(b))
+            else:
+                stmts.append(("def", "range", ("list", [I(b), I(a), I(b)])))
+                it = V("range")
+            lv = self.fresh("i")
+            stmts.append(("for", [lv], None, it, ("seq", [LOG("own." + lv, V(lv))])))
+            stmts.append(LOG("own.list", it))
+            stmts.append(LOG("own.comp", ("comp", "list", [("bin", "*", V(lv), I(2))], [(lv, None, it)], "single", None)))
+            stmts.append(LOG("acc", V("acc0")))
+            return ("seq", stmts)
         if k < 0.45:
             stmts.append(LOG("result", self.loop(1, False, "acc0")))
         elif k < 0.8:
@@ -473,7 +494,8 @@ class Gen:
         if k < 0.55:
             return V("undefined_name_xyz")
         if k < 0.63:
-            return ("bin", "/", I(1), I(0))
+            return r.choice([("bin", "/", I(1), I(0)), ("bin", "%", I(7), I(0)), ("bin", "%", ("lit", ("dec", 2.5)), I(0)), ("bin", "/", ("lit", ("dec", 1.5)), ("lit", ("dec", 0.0))),
+                             ("bin", "-", S("a"), I(1)), ("bin", "*", ("lit", ("bool", True)), I(2)), ("neg", S("a")), ("chain", [I(1), S("a")], ["<"]) if False else ("bin", "+", I(1), ("lit", ("bool", True)))])
         if k < 0.7:
             return CALL("length", I(5))
         if k < 0.76:
